@@ -651,3 +651,369 @@ theorem appendAll_effect : ∀ (xs : List Nat) (h h' : Heap) (p : Nat), Good2 h 
         exact List.mem_append_right _ hy
 
 end BS.Heap
+
+namespace BS.Heap
+
+theorem split_unique {x : Nat} : ∀ (a c b d : List Nat), a ++ x :: b = c ++ x :: d → x ∉ a → x ∉ c → a = c ∧ b = d := by
+  intro a
+  induction a with
+  | nil =>
+    intro c b d h _ hc
+    cases c with
+    | nil => simp at h; exact ⟨rfl, h⟩
+    | cons c0 cs =>
+      simp at h
+      exact absurd h.1.symm (by intro e; exact hc (by simp [e]))
+  | cons a0 as ih =>
+    intro c b d h ha hc
+    cases c with
+    | nil =>
+      simp at h
+      exact absurd h.1 (by intro e; exact ha (by simp [e]))
+    | cons c0 cs =>
+      simp at h
+      obtain ⟨h0, ht⟩ := h
+      have := ih cs b d ht (fun hm => ha (by simp [hm])) (fun hm => hc (by simp [hm]))
+      exact ⟨by rw [h0, this.1], this.2⟩
+
+theorem insertBeforeLoop_cons (h : Heap) (p x : Nat) (a : Arg) (as : List Arg) :
+    insertBeforeLoop h p x (a :: as) =
+      (match insertBeforeLoop h p x [a] with
+       | .error e => .error e
+       | .ok h2 => insertBeforeLoop h2 p x as) := by
+  simp only [insertBeforeLoop]
+  cases extractArg h a with
+  | error e => rfl
+  | ok h1 =>
+    simp only
+    cases indexOf h1 p x with
+    | none => rfl
+    | some i =>
+      simp only
+      cases insert h1 p i [a] with
+      | error e => rfl
+      | ok r => rfl
+
+/-- **insert_before(y₁, …, yₙ)** (distinct elements, none of them the target): all are removed from wherever they were and end up,
+    in the given order, immediately before `x`; the other children of `x`'s parent keep their order; every other children list
+    only loses them -/
+theorem insertBefore_many_effect : ∀ (ys : List Nat) (h h' : Heap) (x p : Nat) (pre post : List Nat), Good2 h →
+    h.parent x = some p → ys.Nodup → x ∉ ys → (∀ y ∈ ys, h.kind y ≠ .soup) → h.kind x ≠ .soup →
+    (h.kids p).filter (fun k => !ys.contains k) = pre ++ x :: post →
+    insertBeforeLoop h p x (ys.map Arg.node) = .ok h' →
+    Good2 h' ∧ h'.kids p = pre ++ ys ++ x :: post ∧
+    (∀ n, n ≠ p → h'.kids n = (h.kids n).filter (fun k => !ys.contains k)) ∧ (∀ y ∈ ys, h'.parent y = some p) := by
+  intro ys
+  induction ys with
+  | nil =>
+    intro h h' x p pre post hg _ _ _ _ _ hk hr
+    simp only [List.map_nil, insertBeforeLoop] at hr; cases hr
+    have hf : ∀ l : List Nat, l.filter (fun k => !([] : List Nat).contains k) = l :=
+      fun l => List.filter_eq_self.mpr (fun _ _ => rfl)
+    rw [hf] at hk
+    refine ⟨hg, by simp [hk], fun n _ => (hf _).symm, fun y hy => by cases hy⟩
+  | cons y ys ih =>
+    intro h h' x p pre post hg hp hnd hx hk hxs hsplit hr
+    have hnd' := List.nodup_cons.mp hnd
+    have hyx : y ≠ x := fun e => hx (by simp [e])
+    have hxys : x ∉ ys := fun hm => hx (by simp [hm])
+    have hyk := hk y (by simp)
+    rw [List.map_cons, insertBeforeLoop_cons] at hr
+    cases hone : insertBeforeLoop h p x [Arg.node y] with
+    | error e => simp only [hone] at hr; cases hr
+    | ok h2 =>
+      simp only [hone] at hr
+      -- the one-argument call
+      have hcall : insertBefore h x [.node y] = .ok h2 := by
+        unfold insertBefore
+        simp only [hxs, if_false, hp]
+        have : ([Arg.node y].any (isSelf x)) = false := by simp [isSelf, hyx]
+        simp only [this, Bool.false_eq_true, if_false]
+        exact hone
+      -- where x sits once y is gone
+      have hndp := good_kids_nodup hg.1 p
+      have hxmem : x ∈ (h.kids p).erase y := by
+        obtain ⟨w, hwf⟩ := hg.1
+        exact (List.mem_erase_of_ne (Ne.symm hyx)).mpr (hwf.parent_kid x p hp)
+      obtain ⟨pre1, post1, hsp1⟩ := List.append_of_mem hxmem
+      obtain ⟨hg2, hkp2, hko2, hpy2⟩ := insertBefore_one_effect hg hp hyk hyx hxs hsp1 hcall
+      obtain ⟨_, hks2⟩ := insertBefore_good2 extract_spec linkChild_spec hg hcall
+      have hp2 : h2.parent x = some p := by
+        obtain ⟨w2, hwf2⟩ := hg2.1
+        exact hwf2.kid_parent p x (by rw [hkp2]; simp)
+      have hk2 : ∀ z ∈ ys, h2.kind z ≠ .soup := fun z hz hs => hk z (by simp [hz]) ((hks2.2 z).mp hs)
+      have hxs2 : h2.kind x ≠ .soup := fun hs => hxs ((hks2.2 x).mp hs)
+      -- the filtered view after the first step
+      have hf2 : (h2.kids p).filter (fun k => !ys.contains k) =
+          (pre1.filter (fun k => !ys.contains k) ++ [y]) ++ x :: post1.filter (fun k => !ys.contains k) := by
+        rw [hkp2, List.filter_append, List.filter_cons, List.filter_cons]
+        simp [hnd'.1, hxys]
+      obtain ⟨hg', hkp', hko', hpa'⟩ := ih h2 h' x p _ _ hg2 hp2 hnd'.2 hxys hk2 hxs2 hf2 hr
+      -- identify pre/post
+      have hview : (h.kids p).filter (fun k => !(y :: ys).contains k) =
+          pre1.filter (fun k => !ys.contains k) ++ x :: post1.filter (fun k => !ys.contains k) := by
+        rw [← filter_erase_cons hndp, hsp1, List.filter_append, List.filter_cons]
+        simp [hxys]
+      have hnd1 : (pre1 ++ x :: post1).Nodup := by rw [← hsp1]; exact hndp.erase y
+      have hxpre1 : x ∉ pre1.filter (fun k => !ys.contains k) := by
+        intro hm
+        have hm' := (List.mem_filter.mp hm).1
+        exact (List.nodup_append.mp hnd1).2.2 x hm' x (by simp) rfl
+      have hxpre : x ∉ pre := by
+        intro hm
+        have hnd0 : (pre ++ x :: post).Nodup := by rw [← hsplit]; exact hndp.filter _
+        exact (List.nodup_append.mp hnd0).2.2 x hm x (by simp) rfl
+      obtain ⟨hpre, hpost⟩ := split_unique _ _ _ _ (hsplit.symm.trans hview) hxpre hxpre1
+      refine ⟨hg', ?_, ?_, ?_⟩
+      · rw [hkp', hpre, hpost]; simp
+      · intro n hn
+        rw [hko' n hn, hko2 n hn, filter_erase_cons (good_kids_nodup hg.1 n)]
+      · intro z hz
+        obtain ⟨w', hwf'⟩ := hg'.1
+        apply hwf'.kid_parent p z
+        rw [hkp']
+        rcases List.mem_cons.mp hz with rfl | hz'
+        · simp
+        · simp [hz']
+
+end BS.Heap
+
+namespace BS.Heap
+
+theorem insert_single_ins {h h' : Heap} {p i c : Nat} {ins : List Nat} (hc : h.kind c ≠ .soup)
+    (hi : insert h p i [.node c] = .ok (h', ins)) : ins = [c] := by
+  unfold insert at hi
+  simp only [insertArgs, insertArg1, hc, if_false, insertElems] at hi
+  cases hcore : insertCore h p i c with
+  | error e => simp only [hcore] at hi; cases hi
+  | ok h3 =>
+    simp only [hcore] at hi
+    cases hidx : indexOf h3 p c with
+    | none => simp only [hidx] at hi; cases hi
+    | some j => simp only [hidx] at hi; cases hi; rfl
+
+/-- one iteration of `insert_after`'s loop on an element argument = the one-argument call; the next anchor is that element -/
+theorem insertAfterLoop_cons_node {h h' : Heap} {p a y : Nat} {as : List Arg} (hg : Good h) (hy : h.kind y ≠ .soup)
+    (hr : insertAfterLoop h p a (.node y :: as) = .ok h') :
+    ∃ h2, insertAfterLoop h p a [.node y] = .ok h2 ∧ insertAfterLoop h2 p y as = .ok h' := by
+  simp only [insertAfterLoop, extractArg] at hr ⊢
+  cases he : extract h y with
+  | error e => simp only [he] at hr; cases hr
+  | ok h1 =>
+    simp only [he] at hr ⊢
+    cases hidx : indexOf h1 p a with
+    | none => simp only [hidx] at hr; cases hr
+    | some i =>
+      simp only [hidx] at hr ⊢
+      cases hins : insert h1 p (i + 1) [.node y] with
+      | error e => simp only [hins] at hr; cases hr
+      | ok r =>
+        obtain ⟨h2, ins⟩ := r
+        simp only [hins] at hr ⊢
+        have hk1 : h1.kind y ≠ .soup := by
+          intro hs
+          obtain ⟨_, _, _, hkind, _⟩ := extract_good extract_spec hg he
+          rw [hkind] at hs; exact hy hs
+        have : ins = [y] := insert_single_ins hk1 hins
+        subst this
+        exact ⟨h2, rfl, by simpa using hr⟩
+
+end BS.Heap
+
+namespace BS.Heap
+
+/-- **insert_after(y₁, …, yₙ)** (distinct elements, none of them the target): all are removed from wherever they were and end up,
+    in the given order, immediately after `x` -/
+theorem insertAfter_many_effect : ∀ (ys : List Nat) (h h' : Heap) (a p : Nat) (pre post : List Nat), Good2 h →
+    h.parent a = some p → ys.Nodup → a ∉ ys → (∀ y ∈ ys, h.kind y ≠ .soup) → h.kind a ≠ .soup →
+    (h.kids p).filter (fun k => !ys.contains k) = pre ++ a :: post →
+    insertAfterLoop h p a (ys.map Arg.node) = .ok h' →
+    Good2 h' ∧ h'.kids p = pre ++ a :: ys ++ post ∧
+    (∀ n, n ≠ p → h'.kids n = (h.kids n).filter (fun k => !ys.contains k)) ∧ (∀ y ∈ ys, h'.parent y = some p) := by
+  intro ys
+  induction ys with
+  | nil =>
+    intro h h' a p pre post hg _ _ _ _ _ hk hr
+    simp only [List.map_nil, insertAfterLoop] at hr; cases hr
+    have hf : ∀ l : List Nat, l.filter (fun k => !([] : List Nat).contains k) = l :=
+      fun l => List.filter_eq_self.mpr (fun _ _ => rfl)
+    rw [hf] at hk
+    refine ⟨hg, by simp [hk], fun n _ => (hf _).symm, fun y hy => by cases hy⟩
+  | cons y ys ih =>
+    intro h h' a p pre post hg hp hnd hx hk hxs hsplit hr
+    have hnd' := List.nodup_cons.mp hnd
+    have hya : y ≠ a := fun e => hx (by simp [e])
+    have hays : a ∉ ys := fun hm => hx (by simp [hm])
+    have hyk := hk y (by simp)
+    rw [List.map_cons] at hr
+    obtain ⟨h2, hone, hrest⟩ := insertAfterLoop_cons_node hg.1 hyk hr
+    have hcall : insertAfter h a [.node y] = .ok h2 := by
+      unfold insertAfter
+      simp only [hxs, if_false, hp]
+      have : ([Arg.node y].any (isSelf a)) = false := by simp [isSelf, hya]
+      simp only [this, Bool.false_eq_true, if_false]
+      exact hone
+    have hndp := good_kids_nodup hg.1 p
+    have hamem : a ∈ (h.kids p).erase y := by
+      obtain ⟨w, hwf⟩ := hg.1
+      exact (List.mem_erase_of_ne (Ne.symm hya)).mpr (hwf.parent_kid a p hp)
+    obtain ⟨pre1, post1, hsp1⟩ := List.append_of_mem hamem
+    obtain ⟨hg2, hkp2, hko2, hpy2⟩ := insertAfter_one_effect hg hp hyk hya hxs hsp1 hcall
+    obtain ⟨_, hks2⟩ := insertAfter_good2 extract_spec linkChild_spec hg hcall
+    have hk2 : ∀ z ∈ ys, h2.kind z ≠ .soup := fun z hz hs => hk z (by simp [hz]) ((hks2.2 z).mp hs)
+    have hyk2 : h2.kind y ≠ .soup := fun hs => hyk ((hks2.2 y).mp hs)
+    have hf2 : (h2.kids p).filter (fun k => !ys.contains k) =
+        (pre1.filter (fun k => !ys.contains k) ++ [a]) ++ y :: post1.filter (fun k => !ys.contains k) := by
+      rw [hkp2, List.filter_append, List.filter_cons, List.filter_cons]
+      simp [hnd'.1, hays]
+    obtain ⟨hg', hkp', hko', hpa'⟩ := ih h2 h' y p _ _ hg2 hpy2 hnd'.2 hnd'.1 hk2 hyk2 hf2 hrest
+    have hview : (h.kids p).filter (fun k => !(y :: ys).contains k) =
+        pre1.filter (fun k => !ys.contains k) ++ a :: post1.filter (fun k => !ys.contains k) := by
+      rw [← filter_erase_cons hndp, hsp1, List.filter_append, List.filter_cons]
+      simp [hays]
+    have hnd1 : (pre1 ++ a :: post1).Nodup := by rw [← hsp1]; exact hndp.erase y
+    have hapre1 : a ∉ pre1.filter (fun k => !ys.contains k) := by
+      intro hm
+      have hm' := (List.mem_filter.mp hm).1
+      exact (List.nodup_append.mp hnd1).2.2 a hm' a (by simp) rfl
+    have hapre : a ∉ pre := by
+      intro hm
+      have hnd0 : (pre ++ a :: post).Nodup := by rw [← hsplit]; exact hndp.filter _
+      exact (List.nodup_append.mp hnd0).2.2 a hm a (by simp) rfl
+    obtain ⟨hpre, hpost⟩ := split_unique _ _ _ _ (hsplit.symm.trans hview) hapre hapre1
+    refine ⟨hg', ?_, ?_, ?_⟩
+    · rw [hkp', hpre, hpost]; simp
+    · intro n hn
+      rw [hko' n hn, hko2 n hn, filter_erase_cons (good_kids_nodup hg.1 n)]
+    · intro z hz
+      obtain ⟨w', hwf'⟩ := hg'.1
+      apply hwf'.kid_parent p z
+      rw [hkp']
+      rcases List.mem_cons.mp hz with rfl | hz'
+      · simp
+      · simp [hz']
+
+end BS.Heap
+
+namespace BS.Heap
+
+/-- `Tag.insert` over element arguments is the element loop -/
+theorem insertArgs_nodes {p : Nat} : ∀ (xs : List Nat) (h : Heap) (pos : Nat), Good2 h → (h.kind p).isTag = true →
+    (∀ x ∈ xs, h.kind x ≠ .soup) →
+    insertArgs h p pos (xs.map Arg.node) =
+      (match insertElems h p pos xs with
+       | .error e => .error e
+       | .ok (h', pos') => .ok (h', pos', xs)) := by
+  intro xs
+  induction xs with
+  | nil => intro h pos _ _ _; simp [insertArgs, insertElems]
+  | cons x xs ih =>
+    intro h pos hg hp hk
+    have hxk := hk x (by simp)
+    simp only [List.map_cons, insertArgs, insertArg1, hxk, if_false, insertElems]
+    cases hcore : insertCore h p pos x with
+    | error e => rfl
+    | ok h1 =>
+      simp only
+      cases hidx : indexOf h1 p x with
+      | none => rfl
+      | some i =>
+        simp only
+        obtain ⟨hg1, hks1⟩ := insertCore_good2 extract_spec linkChild_spec hg hp hxk hcore
+        have hp1 : (h1.kind p).isTag = true := by rw [hks1.1 p]; exact hp
+        have hk1 : ∀ z ∈ xs, h1.kind z ≠ .soup := fun z hz hs => hk z (by simp [hz]) ((hks1.2 z).mp hs)
+        rw [ih h1 (i + 1) hg1 hp1 hk1]
+        cases insertElems h1 p (i + 1) xs with
+        | error e => rfl
+        | ok r => obtain ⟨h3, pos3⟩ := r; simp
+
+/-- the element loop changes the parent of the inserted elements only -/
+theorem insertElems_parent {p : Nat} : ∀ (xs : List Nat) (h : Heap) (pos : Nat) (h' : Heap) (pos' : Nat),
+    Good2 h → (h.kind p).isTag = true → (∀ x ∈ xs, h.kind x ≠ .soup) →
+    insertElems h p pos xs = .ok (h', pos') → ∀ n, n ∉ xs → h'.parent n = h.parent n := by
+  intro xs
+  induction xs with
+  | nil => intro h pos h' pos' _ _ _ hi n _; simp only [insertElems] at hi; cases hi; rfl
+  | cons x xs ih =>
+    intro h pos h' pos' hg hp hk hi n hn
+    have hxk := hk x (by simp)
+    simp only [insertElems] at hi
+    cases hcore : insertCore h p pos x with
+    | error e => simp only [hcore] at hi; cases hi
+    | ok h1 =>
+      simp only [hcore] at hi
+      cases hidx : indexOf h1 p x with
+      | none => simp only [hidx] at hi; cases hi
+      | some i =>
+        simp only [hidx] at hi
+        obtain ⟨hg1, hks1⟩ := insertCore_good2 extract_spec linkChild_spec hg hp hxk hcore
+        have hp1 : (h1.kind p).isTag = true := by rw [hks1.1 p]; exact hp
+        have hk1 : ∀ z ∈ xs, h1.kind z ≠ .soup := fun z hz hs => hk z (by simp [hz]) ((hks1.2 z).mp hs)
+        have hsh := insertCore_shape extract_spec linkChild_spec hg.1 hp hxk hcore
+        rw [ih h1 (i + 1) h' pos' hg1 hp1 hk1 hi n (fun hm => hn (by simp [hm])), hsh.2.2 n]
+        have : n ≠ x := fun e => hn (by simp [e])
+        simp [this]
+
+/-- **replace_with(y₁, …, yₙ)** (distinct elements, none of them `x` or `x`'s parent): `x` comes back detached, and the `yᵢ` — each
+    removed from wherever it was — stand contiguously, in the given order, where `x` stood; the other children keep their order -/
+theorem replaceWith_many_effect {h h' : Heap} {x p : Nat} {ys pre post : List Nat} (hg : Good2 h) (hp : h.parent x = some p)
+    (hnd : ys.Nodup) (hxy : x ∉ ys) (hpy : p ∉ ys) (hk : ∀ y ∈ ys, h.kind y ≠ .soup) (hne : ys ≠ [])
+    (hsplit : h.kids p = pre ++ x :: post) (hr : replaceWith h x (ys.map Arg.node) = .ok h') :
+    h'.kids p = pre.filter (fun k => !ys.contains k) ++ ys ++ post.filter (fun k => !ys.contains k) ∧ h'.parent x = none := by
+  have hg0 := hg
+  obtain ⟨hgood, hstr⟩ := hg
+  obtain ⟨w, hwf⟩ := hgood
+  have hptag := wf_parent_isTag hwf hp
+  unfold replaceWith at hr
+  simp only [hp] at hr
+  have hne1 : (ys.map Arg.node = [Arg.node x]) = False := by
+    apply propext; constructor
+    · intro he
+      cases ys with
+      | nil => simp at he
+      | cons y rest =>
+        cases rest with
+        | nil => simp at he; exact hxy (by simp [he])
+        | cons _ _ => simp at he
+    · intro hf; exact hf.elim
+  have hself : (ys.map Arg.node).any (isSelf p) = false := by
+    rw [List.any_eq_false]
+    intro a ha
+    obtain ⟨y, hy, rfl⟩ := List.mem_map.mp ha
+    simp only [isSelf, decide_eq_true_eq]
+    intro e; exact hpy (e ▸ hy)
+  simp only [hne1, if_false, hself, Bool.false_eq_true] at hr
+  have hnd0 : (pre ++ x :: post).Nodup := by rw [← hsplit]; exact good_kids_nodup ⟨w, hwf⟩ p
+  have hxpre : x ∉ pre := fun hm => (List.nodup_append.mp hnd0).2.2 x hm x (by simp) rfl
+  have hidx : indexOf h p x = some pre.length := by
+    unfold indexOf; rw [hsplit]; exact idxOf?_append_cons_of_not_mem pre post x hxpre
+  simp only [hidx] at hr
+  cases he : extract h x with
+  | error e => simp only [he] at hr; cases hr
+  | ok h1 =>
+    simp only [he] at hr
+    obtain ⟨hg1, hk1, hp1, hkind1, hnext1⟩ := extract_good extract_spec ⟨w, hwf⟩ he
+    have hg1' : Good2 h1 := ⟨hg1, fun n hn => by rw [hkind1]; exact hstr n (by omega)⟩
+    have hxpost : x ∉ post := by
+      intro hm
+      have := (List.nodup_append.mp hnd0).2.1
+      exact (List.nodup_cons.mp this).1 hm
+    have hkp1 : h1.kids p = pre ++ post := by
+      rw [hk1 p]; simp only [hp, if_true]; rw [hsplit]
+      rw [List.erase_append_right _ hxpre]; simp
+    have hptag1 : (h1.kind p).isTag = true := by rw [hkind1]; exact hptag
+    have hkys1 : ∀ y ∈ ys, h1.kind y ≠ .soup := fun y hy => by rw [hkind1]; exact hk y hy
+    unfold insert at hr
+    rw [insertArgs_nodes ys h1 pre.length hg1' hptag1 hkys1] at hr
+    cases hel : insertElems h1 p pre.length ys with
+    | error e => simp only [hel] at hr; cases hr
+    | ok r =>
+      obtain ⟨h2, pos2⟩ := r
+      simp only [hel] at hr; cases hr
+      have hcont := insertElems_contiguous extract_spec linkChild_spec ys h1 pre.length h' pos2 pre [] post
+        hg1' hptag1 hnd hkys1 (fun _ _ hm => by cases hm) (by simp [hkp1]) (by simp) hel
+      refine ⟨by simpa using hcont.1, ?_⟩
+      -- x stays detached: it is not among the inserted elements
+      rw [insertElems_parent ys h1 pre.length h' pos2 hg1' hptag1 hkys1 hel x hxy, hp1 x]; simp
+
+end BS.Heap
